@@ -210,13 +210,34 @@ func vSettle(t *TxWatcher) bool {
 // inline) with targetConfs 3 over arbitrary lnd answers.
 //   - the confirmation request asks lnd for exactly targetConfs confirmations of the tx;
 //   - ok is delivered at most once, only after a Conf event, only if GetInfo succeeded, with
-//     the raw tx of that event, and only if (current - confHeight + 1) mod 2^32 < 504;
+//     the raw tx of that event, and only if the tx has fewer than 504 confirmations on the
+//     height read: current - confHeight + 1 < 504 in unbounded arithmetic (for all uint32
+//     heights with the single exception current = 2^32-1, confHeight = 0, where the code's
+//     32-bit count is 0; lnd's heights are below 2^31);
 //   - a stream error, EOF, unknown event or GetInfo error never produces a callback;
 //   - the watcher itself never checks the depth: it relies on lnd's NumConfs contract;
 //   - once the window has closed (>= 504 confirmations on the height read) the property asks
-//     for a failure report through the confirmation callback;
-//   - the CSV callback of this watcher is used as "too late" signal; it must at least mean
-//     504 confirmations in unbounded arithmetic.
+//     for a failure report through the confirmation callback, and a failure report is only
+//     issued then;
+//   - the CSV callback is never used by this watcher (before the repair it served as "too
+//     late" signal; the assertions about that signal are kept).
+//
+// What C20 demands of ok, and why no lower bound "confHeight <= current+1" belongs to it:
+//
+//	depth   "on the best chain with the required depth" is lnd's NumConfs contract: the Conf
+//	        event is only sent once the chain notifier has seen targetConfs confirmations,
+//	        i.e. its best height is >= confHeight+targetConfs-1.  The watcher adds nothing to
+//	        it; the assertions pin that exactly targetConfs was requested and that ok needs
+//	        the event.
+//	window  judged on the height the watcher read (GetInfo): fewer than 504 confirmations on
+//	        that height, current+1-confHeight < 504.  GetInfo is served by another lnd
+//	        subsystem than the chain notifier and may lag the event.  With current <
+//	        confHeight the tx has no confirmation at all on the height read, so the window
+//	        is as open as it can be on that height; the depth is still the event's.  The
+//	        old code refused ok for a lag of >= 2 blocks (and accepted a lag of 1) only
+//	        because current-confHeight+1 wrapped around; it then issued the csv callback,
+//	        which a taker waiting for the confirmation rejects: a stalled swap, which the
+//	        property does not ask for.
 //
 // Bounds: <= 1 Reorg event before the deciding event; one registration.
 func vLndConf(realistic bool) {
@@ -237,11 +258,26 @@ func vLndConf(realistic bool) {
 	depth := int64(cur) - int64(hc) + 1 // confirmations on the height the watcher read
 	if l.confCalls == 1 {
 		zzverif.Assert(l.confSeen && l.infoCalls == 1 && !l.infoErr, "C20.lnd_conf_ok_needs_conf_event_and_height")
-		zzverif.Assert(cur-hc+1 < 504, "C20.lnd_conf_ok_below_safety_limit_mod_2_32")
+		// fewer than 504 confirmations on the height read, in unbounded arithmetic; over all
+		// uint32 heights the only exception is the 32-bit count 2^32 == 0 (cur = 2^32-1, hc = 0)
+		zzverif.Assert(depth < 504 || depth == 1<<32, "C20.lnd_conf_ok_below_safety_limit")
 		if realistic {
-			zzverif.Assert(depth >= 0 && depth < 504, "C20.lnd_conf_ok_window_open")
+			zzverif.Assert(depth < 504, "C20.lnd_conf_ok_window_open")
+		}
+		if depth < 0 {
+			// GetInfo two or more blocks behind the Conf event (the case the wrap used to
+			// refuse): depth from lnd's event, window open on the height read
+			zzverif.Reach("lnd_conf_ok_read_height_below_confirmation_height")
 		}
 	}
+	if l.confErrCalls == 1 {
+		// a failure is reported only once the window has closed on the height read
+		zzverif.Assert(l.confSeen && l.infoCalls == 1 && !l.infoErr && cur >= hc && cur-hc+1 >= 504, "C20.lnd_conf_failure_report_mod_2_32")
+		if realistic {
+			zzverif.Assert(depth >= 504, "C20.lnd_conf_failure_report_means_504_deep")
+		}
+	}
+	zzverif.Assert(l.csvCalls == 0, "C20.lnd_conf_never_signals_csv")
 	if l.csvCalls == 1 {
 		zzverif.Assert(l.confSeen && !l.infoErr && cur-hc+1 >= 504, "C20.lnd_conf_too_late_signal_mod_2_32")
 		if realistic {
@@ -264,14 +300,19 @@ func vLndConf(realistic bool) {
 // H_C20_lndConf: heights below 2^31 (what lnd can produce).
 func H_C20_lndConf() { vLndConf(true) }
 
-// H_C20_lndConf_wrap: all uint32 heights; only the modulo-2^32 facts are asserted.
+// H_C20_lndConf_wrap: all uint32 heights (beyond what lnd can produce): the facts that hold
+// for every pair of 32-bit heights.
 func H_C20_lndConf_wrap() { vLndConf(false) }
 
 // H_C05_lndHandover: the hand-over condition of the lnd watcher (Bitcoin): when ok is
 // delivered, with h the GetInfo height read after the Conf event and hc the event's block
-// height (both < 2^31): hc <= h+1 and h-hc+1 < 504, i.e. h < hc+503.  The start height
-// (heightHint) and the paymentWindow argument are not used by this watcher at all, and the
-// depth may be 0 (GetInfo one block behind the notifier): Reach witnesses.
+// height (both < 2^31): h+1-hc < 504 in unbounded arithmetic, i.e. h <= hc+502 (this upper
+// bound on the height read relative to the confirmation height is what the HTLC-before-CSV
+// argument of C05 consumes).  There is no lower bound on h: GetInfo may be behind the Conf
+// event by any number of blocks (h+1 == hc and h+1 < hc: Reach witnesses); the depth >= 3 is
+// lnd's NumConfs contract for the requested 3 confirmations, not something the watcher
+// derives from h.  The start height (heightHint) and the paymentWindow argument are not used
+// by this watcher at all: Reach witnesses.
 // Bounds: <= 1 Reorg event; one registration.
 func H_C05_lndHandover() {
 	l := &vLnd{}
@@ -285,9 +326,12 @@ func H_C05_lndHandover() {
 	zzverif.Assume(h < 1<<31 && hc < 1<<31)
 	zzverif.Assert(len(l.confReqs) == 1 && l.confReqs[0].NumConfs == 3 && l.confReqs[0].HeightHint == start, "C05.lnd_request_three_confs_from_start_hint")
 	if l.confCalls == 1 {
-		zzverif.Assert(uint64(hc) <= uint64(h)+1 && uint64(h)+1-uint64(hc) < 504, "C05.lnd_ok_confs_below_504")
+		zzverif.Assert(int64(h)+1-int64(hc) < 504, "C05.lnd_ok_confs_below_504")
 		if hc == h+1 {
 			zzverif.Reach("lnd_ok_with_zero_confirmations_on_read_height")
+		}
+		if h+1 < hc {
+			zzverif.Reach("lnd_ok_read_height_below_confirmation_height")
 		}
 		if hc < start {
 			zzverif.Reach("lnd_ok_confirmed_before_start")
